@@ -1653,8 +1653,19 @@ static iwrc _fsm_reallocate(struct IWFS_FSM *f, off_t nlen, off_t *oaddr, off_t 
   if (nlen_blk == olen_blk) {
     return 0;
   }
+  if (olen_blk < 1) { // No old region: an empty extent must not reach the tree (see _fsm_deallocate)
+    return IW_ERROR_INVALID_ARGS;
+  }
   rc = _fsm_ctrl_wlock(fsm);
   RCRET(rc);
+  if (  IW_RANGES_OVERLAP(oaddr_blk, oaddr_blk + olen_blk, 0, (fsm->hdrlen >> fsm->bpow))
+     || IW_RANGES_OVERLAP(oaddr_blk, oaddr_blk + olen_blk, (fsm->bmoff >> fsm->bpow),
+                          (fsm->bmoff >> fsm->bpow) + (fsm->bmlen >> fsm->bpow))) {
+    // The old region is released here (wholly or in part): same guard as in _fsm_deallocate,
+    // the header and the free-space bitmap itself are never given back
+    rc = IWFS_ERROR_FSM_SEGMENTATION;
+    goto finish;
+  }
   if (nlen_blk < olen_blk) {
     rc = _fsm_blk_deallocate_lw(fsm, oaddr_blk + nlen_blk, olen_blk - nlen_blk);
     if (!rc) {
